@@ -100,6 +100,20 @@ def suspicious_forms(src):
             for arg in re.findall(r"\.(?:saturating_sub|wrapping_sub|checked_sub)\((.*?)\);", lb) + re.findall(r"bytes_held -= (.*?);", lb):
                 if "front" not in arg:
                     sus.append("ReplayRing::push: the eviction does not subtract the evicted chunk's own wire length")
+    # shapes found in the second audit pass (classes g–m)
+    if re.search(r"\btry_lock\s*\(", tc):
+        sus.append("TransferControl: a method uses try_lock (an observer that gives up under contention reports a stale state)")
+    if re.search(r"\bpanicking\s*\(\s*\)", src):
+        sus.append("stream.rs: behaviour depends on std::thread::panicking()")
+    b = body(ring, "replay_from")
+    if b and re.search(r"\.(take|skip|step_by|take_while|skip_while)\(", b):
+        sus.append("ReplayRing::replay_from: the tail is truncated / thinned (take, skip, …)")
+    b = body(tc, "record_ack")
+    if b and len(re.findall(r"\.acked_offset = ", b)) > 1:
+        sus.append("record_ack: acked_offset is written in more than one place")
+    b = body(tc, "record_sent")
+    if b and re.search(r"acked_offset = ", b):
+        sus.append("record_sent: writes acked_offset")
     b = body(ring, "covers")
     if b:
         if re.search(r"\.offset (<=|>=|<|>|!=) offset|offset (<=|>=|<|>|!=) \w+\.offset", b) or re.search(r"is_empty\(\) \{ return true", b) \
